@@ -188,35 +188,29 @@ class _GridUFuncSignature:
         Whether or not two signatures are equivalent.
 
         Axes names in signatures are dummy variables, so an exact string match is not required.
-        Our comparison strategy is to instead work through both signatures left to right, replacing all occurrences
-        of each dummy index with names drawn from a common list. If after this process the replaced names are not
-        identical, the signatures must not be equivalent. Axes positions do have to match exactly.
+        Our comparison strategy is to instead work through both signatures left to right, replacing each dummy
+        index by the place of its first appearance. If after this process the signatures are not identical,
+        they must not be equivalent. Axes positions do have to match exactly.
         """
 
-        def set_unique_inds(sig_part):
-            return set([i for arg in sig_part for i in arg])
+        def first_appearances(sig):
+            # every dummy index is replaced by the place where it first appears
+            names = [
+                name
+                for arg in list(sig.in_ax_names) + list(sig.out_ax_names)
+                for name in arg
+            ]
+            return [names.index(name) for name in names]
 
-        all_unique_sig1_indices = set_unique_inds(self.in_ax_names) | set_unique_inds(
-            self.out_ax_names
-        )
-        all_unique_sig2_indices = set_unique_inds(other.in_ax_names) | set_unique_inds(
-            other.out_ax_names
-        )
+        def positions(sig):
+            return (
+                [tuple(arg) for arg in sig.in_ax_positions],
+                [tuple(arg) for arg in sig.out_ax_positions],
+            )
 
-        if len(all_unique_sig1_indices) != len(all_unique_sig2_indices):
-            return False
-
-        sig1_replaced = str(self)
-        sig2_replaced = str(other)
-        for dummy1, dummy2, common_replacement in zip(
-            all_unique_sig1_indices,
-            all_unique_sig2_indices,
-            self._REPLACEMENT_DUMMY_INDEX_NAMES,
-        ):
-            sig1_replaced = sig1_replaced.replace(dummy1, common_replacement)
-            sig2_replaced = sig2_replaced.replace(dummy2, common_replacement)
-
-        return sig1_replaced == sig2_replaced
+        return positions(self) == positions(other) and first_appearances(
+            self
+        ) == first_appearances(other)
 
 
 def _parse_signature_from_string(
